@@ -67,6 +67,16 @@ fn main() {
     trap::install();
     cpu::install();
     trap::mmu_install();
+    unsafe {
+        let cp = format!("{}.crash", args.out);
+        let b = cp.as_bytes();
+        if b.len() < 511 {
+            let dst = std::ptr::addr_of_mut!(trap::CRASH_PATH) as *mut u8;
+            std::ptr::copy_nonoverlapping(b.as_ptr(), dst, b.len());
+        }
+        trap::MAIN_PID.store(libc::getpid() as u64, std::sync::atomic::Ordering::SeqCst);
+        let _ = std::fs::remove_file(&cp);
+    }
     let mut o = Out::create(&args.out);
     let r = std::panic::catch_unwind(std::panic::AssertUnwindSafe(|| run(&args, &mut o)));
     if r.is_err() {
